@@ -9,7 +9,7 @@ if ! git apply "$PATCH" 2>/dev/null; then
 fi
 RC=0
 for P in "$@"; do
-  OUT=$(cd /verif && ./check "$P" 2>&1); R=$?
+  OUT=$(cd /verif && VERIF_EVIDENCE_DIR=/verif/.work/seed-evidence ./check "$P" 2>&1); R=$?
   echo "$OUT" | grep -E "^(VIOLATION|  rule|KNOWN|C[0-9]+:)" | cut -c1-260
   [ $R -ne 0 ] && RC=1
 done
